@@ -281,8 +281,12 @@ pub fn backup_cb(t: Transport, src: &Path, o: Opts, cb: Arc<dyn Fn(&str) + Send 
     })
 }
 
+/// As a band number: "the latest band, complete or not" (BandSelectionPolicy::Latest).
+pub const LATEST: u32 = u32::MAX;
+
 pub fn sel(band: Option<u32>) -> BandSelectionPolicy {
     match band {
+        Some(LATEST) => BandSelectionPolicy::Latest,
         Some(b) => BandSelectionPolicy::Specified(BandId::new(&[b])),
         None => BandSelectionPolicy::LatestClosed,
     }
